@@ -20,5 +20,9 @@ root = str(paths.output_path)
 found = sorted(os.path.relpath(os.path.join(r, f), root) for r, _, fs in os.walk(root) for f in fs if f.startswith("viz_"))
 print(found, "expected analysis_0/viz_0, analysis_1/viz_1, analysis_2/viz_2")
 combined._analysis_pool.terminate()
-shutil.rmtree(root, ignore_errors=True)
+shutil.rmtree(os.path.dirname(root), ignore_errors=True)
+try:
+    os.rmdir(os.path.dirname(os.path.dirname(root)))
+except OSError:
+    pass
 os._exit(0 if found == ["analyses/analysis_%d/viz_%d.txt" % (i, i) for i in range(3)] else 1)
